@@ -1359,6 +1359,14 @@ func (ex *Exec) ghostStmt(st *State, s ast.Stmt, where string) {
 			ex.specDepth++
 			st.assume(g)
 			ex.tagAssert(g, label)
+		case "takes":
+			// takes("lock name"): the event this monitor is attached to takes
+			// (and releases) that lock - subject to the declared lock order
+			for _, a := range call.Args {
+				if bl, ok := a.(*ast.BasicLit); ok {
+					ex.lockOrderCheck(st, strings.Trim(bl.Value, `"`), token.NoPos)
+				}
+			}
 		case "assume":
 			g := ex.materialize(ex.expr(st, call.Args[0]), tBool).Term
 			st.assume(g)
